@@ -326,8 +326,217 @@ def check_c17(run, replay):
     conclude(run, broken)
 
 
+# ---------------------------------------------------------------- parser-level families
+
+import pfam  # noqa: E402
+
+
+def known_entries(prop):
+    return [k for k in vlib.known_findings() if k.get("status") == "known" and prop in k.get("properties", [k.get("property")])]
+
+
+def classify_known(prop, case, msg, line):
+    """is this failing case an instance of a listed known finding? -> entry or None"""
+    for k in known_entries(prop):
+        fn = KNOWN_CLASSIFIERS.get(k["id"])
+        if fn is not None and fn(case, msg or "", line or ""):
+            return k
+    return None
+
+
+class Families:
+    """runs case lists through the crate (gv) and the extracted model (gm) and judges them"""
+
+    def __init__(self, run, gv, gm):
+        self.run, self.gv, self.gm = run, gv, gm
+        self.failing = 0
+        self.corr_broken = []
+        self.fam_stats = {}
+        self.nontrivial = set()
+
+    def exec(self, cases, mode="parse", tokens=False, model=True):
+        srcs = [c.src for c in cases]
+        impl = vlib.run_records(self.gv, mode, srcs)
+        mod = vlib.run_records(self.gm, mode, srcs) if model else [None] * len(srcs)
+        toks = vlib.run_records(self.gv, "tokens", srcs) if tokens else [None] * len(srcs)
+        return impl, mod, toks
+
+    def judge(self, cases, impl, mod, toks, proj, oracle, what, nontrivial=None, max_replays=4):
+        """oracle(case, impl_line, token_line) -> None | message.  proj: projection compared with the model."""
+        run = self.run
+        pf = pfam.PROJ[proj]
+        seen_msgs = {}
+        flagged = set()
+        for i, c in enumerate(cases):
+            st = self.fam_stats.setdefault(c.family, {"inputs": 0, "accepted": 0, "rejected": 0, "oracle_failures": 0,
+                                                      "model_differs": 0})
+            st["inputs"] += 1
+            oc = pfam.outcome(impl[i])
+            st["accepted" if oc == "OK" else "rejected"] += 1
+            if oc in ("PANIC", "DIED", "EMPTY"):
+                msg = "implementation did not return: " + impl[i][:200]
+            else:
+                try:
+                    msg = oracle(c, impl[i], toks[i]) if oracle else None
+                except Exception as e:   # malformed canonical output
+                    raise MachineryFault("oracle crashed on %r: %r" % (c.src[:200], e))
+            if nontrivial is None or nontrivial(c, impl[i]):
+                self.nontrivial.add(hash(c.src))
+            if msg:
+                st["oracle_failures"] += 1
+                flagged.add(i)
+                k = classify_known(run.prop, c, msg, impl[i])
+                if k is not None:
+                    run.known_finding("%s: %s (e.g. %r)" % (k["id"], k["what"], k.get("witness", "")[:80]))
+                    continue
+                key = re.sub(r"[0-9]+", "N", msg)[:60]
+                seen_msgs[key] = seen_msgs.get(key, 0) + 1
+                if seen_msgs[key] == 1 and self.failing < max_replays:
+                    self.failing += 1
+                    run.violation({"kind": "impl-vs-spec", "family": c.family, "what": what, "input": c.src,
+                                   "style": c.style, "oracle": msg, "impl": impl[i][:3000],
+                                   "model": (mod[i] or "")[:3000]})
+        if mod[0] is not None:
+            for i, c in enumerate(cases):
+                if pf(impl[i]) != pf(mod[i]):
+                    self.fam_stats[c.family]["model_differs"] += 1
+                    if i not in flagged:
+                        self.corr_broken.append({"input": c.src, "family": c.family, "projection": proj,
+                                                 "impl": impl[i][:1500], "model": mod[i][:1500]})
+        run.cov["evaluations"] += len(cases)
+
+    def finish(self, broken):
+        """correspondence differences without a failing input -> no-failing-input-found"""
+        run = self.run
+        run.cov["distinct_nontrivial"] += len(self.nontrivial)
+        run.extra.setdefault("families", []).extend(dict(v, family=k) for k, v in sorted(self.fam_stats.items()))
+        if self.corr_broken and not any(not ni for _, ni in run.violations):
+            run.violation({"kind": "correspondence-broken",
+                           "what": "crate and model differ on a compared projection; the spec oracle accepts the crate's output on every differing input, so no failing input is exhibited",
+                           "count": len(self.corr_broken), "examples": self.corr_broken[:5]}, no_input=True)
+        run.oblige("correspondence: crate == extracted model on the compared projection for every generated input", not self.corr_broken)
+        conclude(run, broken)
+
+
+def budget(run, quick, thorough):
+    return quick if run.tier == "quick" else thorough
+
+
+def seed_of(run):
+    return run.seed % 1000003
+
+
+def replay_parse(run, replay, gv, gm, mode="parse"):
+    obj = json.load(open(replay))
+    if "input" not in obj:
+        print("replay file names a broken obligation/correspondence, not an input: " + str(obj.get("what")))
+        return None
+    s = obj["input"]
+    il = vlib.run_records(gv, obj.get("mode", mode), [s])[0]
+    ml = vlib.run_records(gm, obj.get("mode", mode), [s])[0]
+    tl = vlib.run_records(gv, "tokens", [s])[0]
+    print("input : %r\nimpl  : %s\nmodel : %s" % (s, il[:2000], ml[:2000]))
+    return pfam.Case(s, obj.get("family", "replay"), style=obj.get("style")), il, ml, tl
+
+
+def oracle_positions(c, line, tl):
+    t = pfam.tree_of(line)
+    return None if t is None else pfam.positions_ok(c.src, t)
+
+
+def oracle_accounted(c, line, tl):
+    t = pfam.tree_of(line)
+    if t is None:
+        return None
+    toks, _ = pfam.parse_token_line(tl)
+    return pfam.accounted(c.src, t, toks)
+
+
+def oracle_comments(c, line, tl):
+    if not line.startswith("OK "):
+        return None
+    toks, _ = pfam.parse_token_line(tl)
+    return pfam.comments_ok(line, toks)
+
+
+def parser_check(prop, props_file, proj, oracle, what, rule, families, tokens=True, gen_targets=(),
+                 nontrivial=None, extra=None):
+    def check(run, replay):
+        run.trusted = vlib.BASE_TRUST
+        gv, gm, _ = prepare(run)
+        if replay:
+            r = replay_parse(run, replay, gv, gm)
+            if r:
+                c, il, ml, tl = r
+                msg = oracle(c, il, tl) if oracle else None
+                print("oracle: %s" % msg)
+                if msg and classify_known(prop, c, msg, il) is None:
+                    run.violation({"kind": "impl-vs-spec", "input": c.src, "oracle": msg, "replayed": True})
+            return
+        broken = prove(run, props_file, gen_targets=gen_targets)
+        fam = Families(run, gv, gm)
+        cases = families(run)
+        impl, mod, toks = fam.exec(cases, tokens=tokens)
+        fam.judge(cases, impl, mod, toks, proj, oracle, what, nontrivial=nontrivial)
+        if extra:
+            extra(run, fam, gv, gm)
+        run.cov["rule"] = rule
+        run.cov["samples"] = [c.src[:300] for c in cases[:: max(1, len(cases) // 5)]][:5]
+        fam.finish(broken)
+    return check
+
+
+def fam_valid_mut_soup(nv, nm, ns, styles=("random", "comments", "crlf")):
+    def f(run):
+        n = budget(run, nv, nv * 6)
+        progs, hit, labels = pfam.gen_programs(seed_of(run), n)
+        run.extra["generator_coverage"] = {"labels_hit": len(hit & labels), "labels": len(labels)}
+        cases = pfam.valid_cases(progs, styles)
+        if nm:
+            cases += pfam.mutant_cases(progs, nm)
+        if ns:
+            cases += pfam.soup_cases(seed_of(run), budget(run, ns, ns * 6))
+        return cases
+    return f
+
+
+def accepted(c, line):
+    return line.startswith("OK ")
+
+
+check_c05 = parser_check(
+    "C05", "theories/props/C05.v", "positions", oracle_positions,
+    "every position in the tree is the char offset of the lexeme it names",
+    "generated valid programs (grammar-directed generator, every production x context) in random / comment-laden / CRLF layouts with "
+    "multi-byte identifiers, strings and comments, plus 1-3 token mutations of them and token soup; every ACCEPTED input is judged: "
+    "each position must hold the lexeme its node names (table in tools/pfam.py), pairs open before close, inner children strictly "
+    "between, identifier/literal leaves in source order; crate and model compared on the tree with all positions; non-trivial = accepted inputs",
+    fam_valid_mut_soup(250, 2, 300), nontrivial=accepted)
+
+check_c06 = parser_check(
+    "C06", "theories/props/C06.v", "positions", oracle_accounted,
+    "identifier/literal tokens == leaves of the tree; brackets nested; package clause first",
+    "generated valid programs, 1-3 token deletions/insertions/duplications/swaps/replacements of them, token soup; for every ACCEPTED "
+    "input the scanner's token dump (hook) is compared with the leaves of the returned tree (same text, same offset, each once, in order), "
+    "the bracket tokens must nest and the first token must be `package`; non-trivial = accepted inputs",
+    fam_valid_mut_soup(200, 6, 1500, styles=("random", "dense")), nontrivial=accepted)
+
+check_c11 = parser_check(
+    "C11", "theories/props/C11.v", "comments", oracle_comments,
+    "File.comments holds every comment token exactly once, in order, verbatim",
+    "generated valid programs rendered with comments in random gaps (style comments: line and general comments, multi-byte, "
+    "inside type-parameter lists, interface and struct bodies, at line ends) and accepted mutants; the comment tokens of the hook's "
+    "token dump must equal File.comments (offset and text); non-trivial = accepted inputs containing at least one comment",
+    fam_valid_mut_soup(300, 1, 0, styles=("comments", "comments", "random")),
+    nontrivial=lambda c, l: l.startswith("OK ") and ("/*" in c.src or "//" in c.src))
+
+KNOWN_CLASSIFIERS = {}
+
 REGISTRY = {
     "C10": check_c10,
     "C17": check_c17,
     "C09": check_c09,
+    "C05": check_c05,
+    "C06": check_c06,
+    "C11": check_c11,
 }
